@@ -407,8 +407,11 @@ func NewFork(nodable Nodable, index int, id ForkId) *Fork {
 // The constraints on the fork part of the metadata journal file name are
 // a bit more than those on the fork ID - they can't use a slash to
 // separate nested fork components, and they can't contain a '.' character
-// as that would break the journal filename parsing scheme.
-var encodeJournalName = strings.NewReplacer(".", "%2E", "/", "%2F")
+// as that would break the journal filename parsing scheme.  The escape
+// character itself is escaped as well, so that a separator between nested
+// fork components cannot be confused with a slash which was part of a key
+// (and already escaped in the fork ID).
+var encodeJournalName = strings.NewReplacer("%", "%25", ".", "%2E", "/", "%2F")
 
 func (self *Fork) updateId(id ForkId) {
 	self.forkId = id
